@@ -66,6 +66,9 @@ func propagates(v ssa.Value) (bool, string) {
 		for _, r := range *refs {
 			switch t := r.(type) {
 			case *ssa.Return:
+				// also when it travels in a data slot (interface{}): a caller that type-switches on the data
+				// rejects it, so the failure is still reported (mutant 859 of the second mutation run is
+				// behaviour-preserving up to the message text)
 				return true, "returned"
 			case *ssa.Phi:
 				if ok, how := walk(t); ok {
